@@ -38,6 +38,31 @@ def named_inter_member(t):
     return False
 
 
+def optional_index_next_to_named(text):
+    """syntactic projection of the describe() text: is there an object literal with an optional mapped member
+    ([K in X]?: V) next to at least one other member?  (TypeScript has no spelling for that object type.)"""
+    stack = []          # per open brace: list of member texts at that level
+    for ch in text:
+        if ch == "{":
+            stack.append([""])
+        elif ch == "}":
+            if stack:
+                ms = [m.strip() for m in stack.pop() if m.strip()]
+                if len(ms) >= 2 and any(m.startswith("[K in ") and "]?:" in m for m in ms):
+                    return True
+                if stack:
+                    stack[-1][-1] += "{}"
+        elif ch in ",;" and stack and not _open_parens(stack[-1][-1]):
+            stack[-1].append("")
+        elif stack:
+            stack[-1][-1] += ch
+    return False
+
+
+def _open_parens(m):
+    return m.count("(") > m.count(")") or m.count("[") > m.count("]") or m.count("<") > m.count(">") - m.count("=>")
+
+
 INEXACT_LITERALS = ["3.14159"]      # BeffSem!InexactFractions
 
 
@@ -119,11 +144,13 @@ def run(prop, tier):
                "recursive": has_recursive_decl(c["env"]),
                "inexactlit": any(x in c["_src"] for x in INEXACT_LITERALS),
                "namedinter": named_inter_member(c["ty"]) or any(named_inter_member(d.get("ty", {})) for d in c["env"]),
+               "optixnamed": False,
                "tploneof": '"p": "oneof"' in json.dumps(c["ty"]) or '"p": "oneof"' in json.dumps(c["env"]), "desc1ok": False, "desc1": "", "decls": [], "vec1": "", "h1": "", "outcome2": "none", "vec2": "", "h2": "", "desc2": ""}
         if o1 is not None and o1["load"] == "ok":
             rec["desc1ok"] = o1["describe"]["ok"]
             rec["desc1"] = o1["describe"]["v"] if o1["describe"]["ok"] else o1["describe"]["msg"]
             rec["decls"] = DECL.findall(rec["desc1"]) if o1["describe"]["ok"] else []
+            rec["optixnamed"] = bool(o1["describe"]["ok"]) and optional_index_next_to_named(rec["desc1"])
             rec["vec1"] = vec(o1)
             rec["h1"] = o1["h256"]["v"]
             c2 = c.get("_comp2")
